@@ -92,3 +92,11 @@ TEXT.update({
                 design_ref='DESIGN.md section 5, C19', level_note='Trusted: reference bracket model, sim backend stub, simulated clock. Real code: rlbox_sandbox.hpp invoke path and callback interceptor, noop backend.',
                 technique='deterministic simulation: abort injection at every crossing position of nested invoke/callback trees, history check against a bracket grammar, simulated clock, shrinking, replay'),
 })
+
+TEXT.update({
+    'C18': dict(level_text=('Seeded schedule exploration over real threads parked and released one at a time at RLBox\'s own lock boundaries, backend entry points and guest/callback code, with '
+                            'per-thread single-threaded oracles, deadlock and bounded-progress detection, and a ThreadSanitizer build in which only RLBox\'s own synchronisation creates '
+                            'happens-before edges (the scheduler hand-off is hidden from TSan). Sampling evidence over schedules; distinct schedules are counted.'),
+                design_ref='DESIGN.md section 5, C18', level_note='Trusted: the scheduler and lock model, ThreadSanitizer (clang 14), sim backend stub. Real code: rlbox_sandbox.hpp registry/locking, noop backend TLS record.',
+                technique='deterministic simulation: seeded scheduler over real threads at lock/backend yield points + happens-before race detection (TSan with hidden hand-off), shrinking, replay'),
+})
